@@ -245,6 +245,28 @@ def _check_table(acc, case, spell, gcol, hcol, fcol, f2col):
                 fail("pcDelta_grouped/edges", {"names": names, "rows": exp}, r if raised(r) else {"names": list(r.index), "rows": _vals(r).tolist()})
                 return
             acc.ok(("pdg", normalize, str(exp)), nontrivial=nt)
+        # keyword arguments go to pcDelta unchanged: with a pseudocount c a group without any pair (a singleton) has the
+        # prior c/(2c) in every bin, not NaN
+        for pcnt in (0.5, 2):
+            acc.cls("pseudocount-forwarded")
+            r = acc.call(pyrepseq.pcDelta_grouped, df, by, "seq", bins=EDGES, pseudocount=pcnt)
+            exp = []
+            for k in names:
+                c = hist(gs[k], None, False)
+                exp.append([(x + pcnt) / (sum(c) + 2 * pcnt) for x in c])
+            if not _cmp_matrix(r, exp):
+                fail("pcDelta_grouped/pseudocount", {"names": names, "rows": exp}, r if raised(r) else {"names": list(r.index), "rows": _vals(r).tolist()}, note="pseudocount=%r" % pcnt)
+                return
+            if len(names) >= 2:
+                r = acc.call(pyrepseq.pcDelta_grouped_cross, df, by, "seq", condensed=True, bins=EDGES, pseudocount=pcnt)
+                exp = []
+                for a, b in itertools.combinations(names, 2):
+                    c = hist(gs[a], gs[b], False)
+                    exp.append([(x + pcnt) / (sum(c) + 2 * pcnt) for x in c])
+                if not _cmp_matrix(r, exp):
+                    fail("pcDelta_grouped_cross/pseudocount", {"rows": exp}, r if raised(r) else _vals(r).tolist(), note="pseudocount=%r" % pcnt)
+                    return
+            acc.ok()
         if len(names) >= 2:
             r = acc.call(pyrepseq.pcDelta_grouped_cross, df, by, "seq", condensed=True, bins=EDGES)
             pairs = list(itertools.combinations(names, 2))
